@@ -469,6 +469,20 @@ class Interp:
                         return args[1]
                     st.pending = st.pending or "StopIteration"
                     return U("StopIteration")
+            # a local set held by value (a set display / set comprehension): add / update / discard rebind the name
+            if isinstance(fval, K) and isinstance(fval.v, frozenset) and isinstance(e.func, ast.Attribute) and isinstance(e.func.value, ast.Name) \
+                    and e.func.attr in ("add", "update", "discard") and len(args) == 1 and not kwargs and e.func.value.id in st.env:
+                if e.func.attr == "update":
+                    seq_u = self.iterate(args[0], st)
+                    if seq_u is None:
+                        return U("update with an unknown iterable")
+                    new_set = frozenset(fval.v | frozenset(st.freeze(x) for x in seq_u))
+                elif e.func.attr == "add":
+                    new_set = frozenset(fval.v | {st.freeze(args[0])})
+                else:
+                    new_set = frozenset(x for x in fval.v if x != st.freeze(args[0]))
+                st.env[e.func.value.id] = K(new_set)
+                return K(None)
             # built-in record operation: x.replace(field=value)
             if isinstance(fval, R) and isinstance(e.func, ast.Attribute) and e.func.attr == "replace" and not args:
                 return fval.replace(**kwargs)
